@@ -356,3 +356,60 @@ pub proof fn lemma_batch_core_perm<C: ContentAddrStore>(s: UnsealedState<C>, t1:
         assert(0 <= u < t2.len() && t2[u].kind == TxKind::DoscMint && doscmint_ok(s, rel, t2[u], r.dosc_speed));
     }
 }
+
+// ---- C19 over more than one batch: a faucet's dedup marker, once written, survives every later batch, and a batch cannot contain a
+// faucet whose marker is present.  (Sealing and opening the next block write coins only under transaction-output ids and the
+// proposer-reward id and remove only output ids -- the frame argument of DESIGN 4/C19; not mechanised here.)
+/// A-HASH: no byte string hashes to the all-zero value (the same idealisation as axiom_txhash_nonzero, for covenant hashes)
+pub broadcast axiom fn axiom_h1_nonzero(b: Seq<u8>) ensures #[trigger] h1(b) != spec_zero_hash();
+pub proof fn lemma_marker_not_kept(txx: Seq<Transaction>, h: TxHash)
+    ensures !kept_in(txx, txx.len() as int, spec_marker(h)), forall|rel: Map<CoinID, CoinDataHeight>| !created_by(txx, txx.len() as int, rel, spec_marker(h))
+{
+    broadcast use axiom_marker_not_output;
+    assert forall|t: int, i: int| 0 <= t < txx.len() implies #[trigger] cid(txx[t], i) != spec_marker(h) by { assert(spec_txhash(txx[t]).0 != spec_fdp_hash(h)); }
+}
+//@LEMMA C19 lemma_marker_kept a dedup marker present before an accepted batch is present after it: no transaction can spend it (nothing hashes to its all-zero covenant hash)
+pub proof fn lemma_marker_kept<C: ContentAddrStore>(s: UnsealedState<C>, txx: Seq<Transaction>, r: UnsealedState<C>, rel: Map<CoinID, CoinDataHeight>, ns: Map<TxHash, StakeDoc>, h: TxHash)
+    requires batch_core_with(s, txx, r, rel, ns), markers_ok(s.coins@.coins), s.coins@.coins.contains_key(spec_marker(h))
+    ensures r.coins@.coins.contains_key(spec_marker(h)), r.coins@.coins[spec_marker(h)] == s.coins@.coins[spec_marker(h)]
+{
+    broadcast use axiom_covenants_map, axiom_h1_nonzero;
+    let m = spec_marker(h); let c0 = s.coins@.coins; let n = txx.len() as int;
+    lemma_marker_not_kept(txx, h);
+    if spent_by(txx, n, m) {
+        let (t, k) = choose|t: int, k: int| 0 <= t < n && 0 <= k < txx[t].inputs@.len() && m == #[trigger] txx[t].inputs@[k];
+        assert(tx_accepted(s, rel, ns, txx[t]));
+        assert(rel.contains_key(m) && rel[m] == c0[m]);
+        let a = rel[m].coin_data.covhash;
+        assert(script_approves(spec_covenants_map(txx[t]), a, txx[t], env_of(txx[t], rel, k, spec_last_header(s))));
+        assert(spec_covenants_map(txx[t]).contains_key(a));
+        assert(false);
+    }
+    assert(!created_by(txx, n, rel, m));
+    assert(batch_coins(c0, r.coins@.coins, txx, rel));
+    assert(r.coins@.coins.contains_key(m));
+    assert(r.coins@.coins[m] == c0[m]);
+}
+//@LEMMA C19 lemma_faucet_once an accepted faucet leaves its marker, and no accepted batch contains a (non-grandfathered) faucet whose marker is already there: at most once per chain, given marker persistence
+pub proof fn lemma_faucet_once<C: ContentAddrStore>(s: UnsealedState<C>, txx: Seq<Transaction>, r: UnsealedState<C>, rel: Map<CoinID, CoinDataHeight>, ns: Map<TxHash, StakeDoc>, q: int)
+    requires batch_core_with(s, txx, r, rel, ns), 0 <= q < txx.len(), txx[q].kind == TxKind::Faucet, !is_grandfathered(spec_txhash(txx[q]))
+    ensures !s.coins@.coins.contains_key(spec_marker(spec_txhash(txx[q]))), r.coins@.coins.contains_key(spec_marker(spec_txhash(txx[q]))), s.network != NetID::Mainnet
+{
+    let h = spec_txhash(txx[q]); let m = spec_marker(h); let n = txx.len() as int;
+    lemma_marker_not_kept(txx, h);
+    assert(marker_of(txx, n, m));
+    if spent_by(txx, n, m) { assert(rel.contains_key(m)); assert(s.coins@.coins.contains_key(m)); }
+}
+//@LEMMA C19 lemma_markers_batch an accepted batch keeps every dedup marker and the marker invariant
+pub proof fn lemma_markers_batch<C: ContentAddrStore>(s: UnsealedState<C>, txx: Seq<Transaction>, r: UnsealedState<C>, rel: Map<CoinID, CoinDataHeight>, ns: Map<TxHash, StakeDoc>)
+    requires batch_core_with(s, txx, r, rel, ns), markers_ok(s.coins@.coins)
+    ensures markers_kept(s.coins@.coins, r.coins@.coins), markers_ok(r.coins@.coins)
+{
+    let c0 = s.coins@.coins; let c1 = r.coins@.coins; let n = txx.len() as int;
+    assert forall|h: TxHash| c0.contains_key(#[trigger] spec_marker(h)) implies c1.contains_key(spec_marker(h)) && c1[spec_marker(h)] == c0[spec_marker(h)] by { lemma_marker_kept(s, txx, r, rel, ns, h); }
+    assert forall|h: TxHash| c1.contains_key(#[trigger] spec_marker(h)) implies c1[spec_marker(h)].coin_data.covhash == Address(spec_zero_hash()) by {
+        lemma_marker_not_kept(txx, h);
+        assert(batch_coins(c0, c1, txx, rel));
+        assert(!created_by(txx, n, rel, spec_marker(h)));
+    }
+}
